@@ -273,6 +273,23 @@ func c17(e *Env) {
 			if c.Choose("shortid", 2) == 1 {
 				idb = idb[:min(len(idb), 1+c.Choose("idlen", 20))]
 			}
+			// ... or the genuine id of a statement this client prepared earlier, however odd its text
+			// was (the backend accepted it): what the proxy remembers of such a statement is used
+			// when its EXECUTE fails
+			var real [][]byte
+			for _, r := range h.Reqs {
+				for _, rep := range r.Replies {
+					if rep.Frame != nil {
+						if pr, ok := rep.Frame.Body.Message.(*message.PreparedResult); ok && len(pr.PreparedQueryId) > 0 {
+							real = append(real, pr.PreparedQueryId)
+						}
+					}
+				}
+			}
+			if len(real) > 0 && c.Choose("realid", 2) == 1 {
+				idb = real[c.Choose("realidwhich", len(real))]
+				e.Res.Stats["probe.c17.execute_of_oddly_prepared_statement"]++
+			}
 			idb = idb[:min(len(idb), 300)]
 			if c.Choose("idinbatch", 3) == 2 {
 				b := &message.Batch{Type: primitive.BatchTypeLogged, Consistency: primitive.ConsistencyLevelOne}
